@@ -66,10 +66,16 @@ func (a *application) start(mode gen.ApplicationMode, options gen.ApplicationOpt
 		pid, err := a.node.spawn(item.Factory, opts)
 		if err != nil {
 			lib.VerifPoint("app.rollback", a.spec.Name)
+			// collect the members first: Kill of a sleeping process runs the termination
+			// inline, which takes the write lock of the group (a.terminate)
+			started := []gen.PID{}
 			a.group.Range(func(pid gen.PID, _ bool) bool {
-				a.node.Kill(pid)
+				started = append(started, pid)
 				return true
 			})
+			for _, pid := range started {
+				a.node.Kill(pid)
+			}
 			atomic.StoreInt32(&a.state, int32(gen.ApplicationStateLoaded))
 			return err
 		}
@@ -127,14 +133,20 @@ func (a *application) stop(force bool, timeout time.Duration) error {
 	a.mode = gen.ApplicationModeTemporary
 
 	lib.VerifPoint("app.stop.range", a.spec.Name)
+	// collect the members first: Kill of a sleeping process runs the termination
+	// inline, which takes the write lock of the group (a.terminate)
+	members := []gen.PID{}
 	a.group.Range(func(pid gen.PID, _ bool) bool {
+		members = append(members, pid)
+		return true
+	})
+	for _, pid := range members {
 		if force {
 			a.node.Kill(pid)
 		} else {
 			a.node.SendExit(pid, gen.TerminateReasonShutdown)
 		}
-		return true
-	})
+	}
 
 	if force {
 		a.reason = gen.TerminateReasonKill
